@@ -114,7 +114,7 @@ def run(rep, tier, seed):
         for u2 in G.UN_KINDS:
             add(("un", u1, ("un", u2, ("id", "i"))), "unary-unary")
     # 3. random trees
-    n_random = 15000 if quick else 200000
+    n_random = 15000 if quick else 600000
     for _ in range(n_random):
         add(gen.tree(rng.choice([2, 3, 3, 4, 5, 6])), "random", modes=(rng.choice(["min", "full"]),),
             noise=rng.random() < 0.3)
@@ -183,7 +183,7 @@ def run(rep, tier, seed):
     rep.extra["old_syntax_texts_parsed"] = n_old
 
     # 4. the same trees inside whole models: as update (expression list) and guard of an edge, no static analysis
-    n_model = 1500 if quick else 20000
+    n_model = 1500 if quick else 60000
     mcases = []
     for i in range(n_model):
         t1 = gen.tree(rng.choice([2, 3, 4]))
@@ -225,7 +225,7 @@ def run(rep, tier, seed):
         lit_items.append(("int", t))
     for t in DBL_LITS:
         lit_items.append(("dbl", t))
-    for _ in range(1500 if quick else 30000):
+    for _ in range(1500 if quick else 100000):
         # random decimal doubles and integers near the limits
         if rng.random() < 0.5:
             mant = "%d.%s" % (rng.randrange(0, 10 ** rng.randint(1, 18)), "".join(rng.choice("0123456789") for _ in range(rng.randint(1, 25))))
@@ -238,7 +238,7 @@ def run(rep, tier, seed):
     # float, long double, or a truncated digit string) picks the wrong neighbour for these
     from decimal import Decimal, getcontext
     getcontext().prec = 1200
-    for _ in range(600 if quick else 12000):
+    for _ in range(600 if quick else 40000):
         e = rng.choice([rng.randint(-40, 60), rng.randint(-1000, 960), rng.randint(-8, 30)])
         x = (2 ** 52 + rng.getrandbits(52)) * 2.0 ** (e - 52)
         if rng.random() < 0.15:
